@@ -214,7 +214,21 @@ impl Check for C18 {
         if format!("{:?}", prog) != before {
             ctx.violation("program-modified", "linting changed the program".into());
         }
-        let boring: Vec<&rrss::linter::Diag> = result.diags.iter().filter(|d| d.issue.starts_with("Assignment of literal value")).collect();
+        // the diagnostics of the constant-assignment pass, identified by running that pass alone
+        // (not by their wording); the full linter must contain exactly these
+        let own: Vec<rrss::linter::Diag> = {
+            use rrss::analysis::visit::VisitProgram;
+            match rrss::linter::passes::BoringAssignmentPass.visit_program(&prog) {
+                Ok(rrss::linter::ListBuilder::One(d)) => vec![d],
+                Ok(rrss::linter::ListBuilder::List(v)) => v,
+                _ => Vec::new(),
+            }
+        };
+        let boring: Vec<&rrss::linter::Diag> = result.diags.iter().filter(|d| own.iter().any(|o| o == *d)).collect();
+        if boring.len() != own.len() {
+            ctx.violation("missing-diagnostic", format!("the linter result lacks diagnostics of the constant-assignment pass: pass alone {:?}, linter {} — {:?}", own.iter().map(|d| &d.issue).collect::<Vec<_>>(), result, text));
+            return;
+        }
         ctx.observe_str(&format!("{}", result));
         match (&due, boring.len()) {
             (None, 0) => {
@@ -242,16 +256,15 @@ impl Check for C18 {
             ctx.violation("wrong-line", format!("the assignment is on line {} but the diagnostic says line {} — {:?}", line, diag.line, text));
         }
         let quoted = backticked(&diag.issue);
-        let value_ok = match (&due, quoted.first()) {
-            (Due::Num(n), Some(q)) => q.parse::<f64>().map_or(false, |v| v.to_bits() == n.to_bits() || (v.is_nan() && n.is_nan()) || (v == *n)),
-            (Due::Str(s), Some(q)) => *q == format!("\"{}\"", s),
-            _ => false,
-        };
+        let value_ok = quoted.iter().any(|q| match &due {
+            Due::Num(n) => q.parse::<f64>().map_or(false, |v| v.to_bits() == n.to_bits() || (v.is_nan() && n.is_nan()) || (v == *n)),
+            Due::Str(s) => *q == format!("\"{}\"", s) || q == s,
+        });
         if !value_ok {
             ctx.violation("wrong-issue-text", format!("the issue should quote the value {:?}: {:?} — {:?}", due, diag.issue, text));
         }
         if let Some(t) = &plain_target {
-            if quoted.get(1) != Some(t) {
+            if !quoted.iter().any(|q| q == t) {
                 ctx.violation("wrong-issue-text", format!("the issue should name the target `{}`: {:?}", t, diag.issue));
             }
         }
